@@ -32,7 +32,7 @@ def showOpt (tag : String) : Option Nat → String
   | some n => s!"ok {n}"
   | none => tag
 
-def c16Engine (args : List String) : String :=
+def c16Core (args : List String) : String :=
   match args with
   | ["rw", wk, v, rk] =>
     match Key.ofSnake? wk, pNat v, Key.ofSnake? rk with
@@ -88,5 +88,12 @@ def c16Engine (args : List String) : String :=
       | .field _ => true | .flag _ => true | .helper _ _ => true | _ => false).length
     s!"ok {n} {Key.all.length} {Flag.all.length} {AmountKey.all.length} {FactorKey.all.length} {AddressKey.all.length}"
   | _ => "bad-op"
+
+/-- `pparam <pure> …` = `param …` on a market with `MarketFlag::Pure` set to `<pure>`: the wiring of config
+fields into model parameters does not depend on the flag -/
+def c16Engine (args : List String) : String :=
+  match args with
+  | "pparam" :: pure :: rest => if (pBool pure).isSome then c16Core ("param" :: rest) else "bad-op"
+  | _ => c16Core args
 
 end Gmx.Drv.Tbl
